@@ -23,6 +23,14 @@ var verifRoot = func() string {
 	return "/verif"
 }()
 
+// repoRoot is the tormoder/fit tree the harness was built against.
+var repoRoot = func() string {
+	if v := os.Getenv("VERIF_REPO"); v != "" {
+		return v
+	}
+	return "/repo"
+}()
+
 // runOpts are the flags common to every per-property run.
 type runOpts struct {
 	tier   string
